@@ -285,6 +285,34 @@ func genMapSession(r *rand.Rand, i int) J {
 		delete(c, "anyorder")
 		return c
 	}
+	if i%6 == 3 {
+		// a map[any]any (what a YAML decoder produces) whose keys are of several kinds, some of them the same number in
+		// different Go types: whatever m[1], m[k], m contains 1 answer, they answer it every time, however the map was built
+		ks := []string{"l:1", "f:1", "s:1", "u:2", "f:2", "b:true", "i:3", "f:3", "l:0", "f:0", "x", "u:1", "l:2"}
+		pairsM := []any{}
+		for k := 0; k < n+1 && k < len(ks); k++ {
+			pairsM = append(pairsM, []any{bs(ks[k]), vStr(ks[k])})
+		}
+		sort.Slice(pairsM, func(a, b int) bool { return bytesOf(pairsM[a].([]any)[0]) < bytesOf(pairsM[b].([]any)[0]) })
+		kv := pick(r, []J{vInt(1), vInt(2), vFlt(1, 1), vInt(0), vStr("1")})
+		c["envs"] = []any{[]any{[]any{bs("k"), kv}, []any{bs("m"), J{"k": "map", "v": pairsM}}, []any{bs("s"), vStr("v")}}}
+		c["reprs"] = []any{J{"m": "mixedkeys"}}
+		c["noref"] = true
+		idx := func(e J) []any { return []any{nText("["), nObj(eIdx(eVar("m"), e)), nText("]")} }
+		c["templates"] = []any{
+			append(append(idx(eLit(vInt(1))), idx(eLit(vInt(2)))...), idx(eLit(vInt(0)))...),
+			idx(eVar("k")),
+			append(idx(eLit(vFlt(1, 1))), idx(eLit(vFlt(3, 1)))...),
+			[]any{J{"t": "if", "branches": []any{J{"c": eCmp("contains", eVar("m"), eVar("k")), "body": []any{nText("y")}}, J{"c": J{"t": "else"}, "body": []any{nText("n")}}}}},
+			[]any{J{"t": "assign", "name": bs("z"), "e": eIdx(eVar("m"), eVar("k"))}, nObj(eFilter(eVar("z"), "append", eVar("s")))},
+			idx(eLit(vStr("1"))),
+		}
+		for _, ox := range ops {
+			ox.(J)["shuffle"] = true
+		}
+		delete(c, "anyorder")
+		return c
+	}
 	if i%6 == 5 {
 		// the caller keeps one bindings object and edits it between renders: the map loses some keys and gains as many
 		// others, in place - what is rendered is what it holds now
